@@ -251,6 +251,7 @@ func Run(c *vh.Ctx) {
 	c.Res.Rule = "omap: an op sequence of length ≥ 2, distinct by its text; repetition: a program that produced output or a diagnostic, distinct by its source text; pair: an (A, B) pair, distinct by both texts"
 	e := &env{c: c, progDir: filepath.Join(c.Scratch, "progs")}
 	os.MkdirAll(e.progDir, 0o755)
+	os.WriteFile(filepath.Join(e.progDir, "c20_inc.php"), []byte("<?php\nfunction c20_included() { return 'included-fn'; }\necho 'include-ran;';\n"), 0o644)
 
 	if len(c.ReplayRaw) > 0 {
 		e.replay(m)
